@@ -7,7 +7,7 @@ from vf.lazy import ck, libx, common
 from vf.monitors import algos, large
 
 PROP = "C12"
-TECHNIQUE = ('runtime monitoring of Borda (both variants) against exact rational means; metamorphic monitors (permuted rankings, renamed elements); aggregation again after an in-place mutation; size classes up to 3000 x 64 (position totals above 1e5) against exact means')
+TECHNIQUE = ('runtime monitoring of Borda (both variants) against exact rational means; metamorphic monitors (permuted rankings, renamed elements); aggregation again after an in-place mutation; size classes up to 3000 x 64 (position totals above 1e5) against exact means; the bench_mode route')
 RULE = ("cases = dataset (D1-D7, D12 names; n<=9) x scheme (the four accepted families x positive multipliers, S5 look-"
         "alikes proportional on one vector only, other schemes) x variant (number of elements strictly before / bucket "
         "index); oracle = exact rational means; metamorphic monitors on the same run: permuting the rankings and renaming "
